@@ -244,7 +244,7 @@ def run(ck, P):
 
     # ------------------------------------------------------------------ 5. dropped on stop, kept on pause
     ck.rule("C09.5-STOP-DROPS", "constant propagation: manage_srcs removes sources from the registry only for (RM, stop=true); stop() forwards its "
-            "`stopping` flag, start() passes (ADD, false); pause therefore keeps every source", floor=3)
+            "`stopping` flag on every path (whatever the current state), start() passes (ADD, false); pause therefore keeps every source", floor=4)
     ms = P.fn("manage_srcs")
     ck.analysed(ms)
     ck.need("RM" in E and "ADD" in E, "op_type constants vanished")
@@ -259,6 +259,23 @@ def run(ck, P):
         fl, st = cval(ev.args[2]), S(ev.args[3])
         ok = (f.name == "stop" and fl == E["RM"] and st == f.params[1]["name"]) or (f.name == "start" and fl == E["ADD"] and cval(ev.args[3]) == 0)
         ck.ob("C09.5-STOP-DROPS", f.site("manage_srcs(%s,%s)" % (fl, st)), ok, "%s calls manage_srcs(flag=%s, stop=%s)" % (f.name, fl, st))
+
+    spf = P.fn("stop", "Lib/core/mod.c")
+    ck.analysed(spf)
+    mcs = [e for e in spf.calls("manage_srcs")]
+    stores = [e for e in P.writes_to_field("_mod", "state") if e.fn is spf]
+
+    def step_ms(st, ev):
+        return st | {"managed"} if ev in mcs else st
+    INms = rules.tag_analysis(spf, step_ms, must=True)
+    okall = bool(mcs) and bool(stores)
+    for w in stores:
+        stt = spf.state_before(INms, w, step_ms)
+        okall = okall and stt is not None and "managed" in stt
+    ck.ob("C09.5-STOP-DROPS", spf.site("manage_srcs on every path"), okall,
+          "every path of stop() to the state store passes manage_srcs(…, RM, stopping), whatever the module's current state" if okall else
+          "stop() can store the new state without having passed manage_srcs(RM): a module stopped from that state (e.g. PAUSED) keeps all its sources",
+          witness=[("del_event", spf.unit, spf.name, e.block.id, e.idx) for e in mcs])
 
     # ------------------------------------------------------------------ 6. tasks cannot be deregistered
     ck.rule("C09.6-TASK-EPERM", "m_mod_src_deregister_task returns a negative code on every path and never touches the registry", floor=1)
